@@ -46,7 +46,7 @@ var Check = &run.Check{
 	Assumptions: []string{
 		"the edit set is defined by the model, as the statement says; a model call entry is mapped to its planted token through (function, ordinal) and a declaration through (name, parameter list)",
 		"cases whose model disagrees with the planted ground truth in names or counts (C01/C02's business) are counted as inconclusive, not decided here",
-		"files use \\n line ends",
+		"a quarter of the files use \\r\\n line ends (the \\r is one of the 'other bytes' that must survive)",
 	},
 	Cases: cases,
 	Floor: func(tier string) int {
@@ -59,7 +59,7 @@ var Check = &run.Check{
 }
 
 var opts = javagen.Opts{MinFiles: 1, MaxFiles: 6, MaxMethods: 6, MaxParams: 3, MaxFields: 4, Interfaces: true, Generics: true, Annotations: true, Ctors: true, Overloads: true,
-	Bodies: true, MaxStmts: 8, MaxSites: 25, Lambdas: true, MultiByte: true, HotBias: 6, FieldsFirst: true}
+	Bodies: true, MaxStmts: 8, MaxSites: 25, Lambdas: true, MultiByte: true, HotBias: 6, FieldsFirst: true, CRLF: true}
 
 var javaKeywords = map[string]bool{"do": true, "if": true, "for": true, "int": true, "new": true, "try": true, "var": true, "byte": true, "case": true, "char": true, "else": true, "enum": true, "goto": true, "long": true, "this": true, "void": true, "null": true, "true": true}
 
